@@ -917,6 +917,10 @@ def oracle(sim: Sim, plan: dict) -> list[dict]:
                 if te is None and exits.get(tfs[fid]["ctx"]) is not None and exits[tfs[fid]["ctx"]][0] < r[0]:
                     continue  # never ran to an end we can see (cancelled with its owner)
                 v("C09.handles", "missing_live", f"all_task_handles() lacks {tid}, which was spawned and has not finished ({r[5]['where']})")
+            if se is not None and se[5]["out"] == "ok" and t["begin"][0] < r[0] < se[0] and (te is None or r[0] < te[0]) and tid not in names:
+                # start_task() / start_task_soon() has been called and will succeed: the task
+                # is spawned from that moment on, also before it has taken its first step
+                v("C09.handles", "missing_starting", f"all_task_handles() lacks {tid}, whose spawn had begun (and later succeeded) ({r[5]['where']})")
             if we is not None and r[0] > we[0] and tid in names:
                 v("C09.handles", "stale", f"all_task_handles() still contains {tid} after wait_finished() returned")
         unknown = [n for n in names if n not in tasks]
